@@ -34,6 +34,7 @@ import VotelibProofs.Lemmas.ShapeCardinal
 import VotelibProofs.Lemmas.ShapeApprovalPAV
 import VotelibProofs.Lemmas.ShapeQuotaSubtract
 import VotelibProofs.Lemmas.ShapeSequential
+import VotelibProofs.Lemmas.ShapeAux
 namespace VL.C08
 open VL
 
@@ -205,6 +206,155 @@ theorem input_order_shape (votes : Votes) (hwf : C09.WF votes) (n : Nat) (hlen :
   omega
 
 end thresholds
+
+/-! ### auxiliary selectors whose order comes from outside the votes (model VotelibModel/ShapeAux.lean): the draws of the
+    seeded generator / the values of the md5 chain are a parameter; the theorems hold for EVERY draw sequence -/
+
+section auxiliary
+open VL.ShapeAux
+
+theorem selectNRandom_shape (votes : Votes) (hwf : C09.WF votes) (n : Nat) (hn : n ≤ votes.length) (draws : List Rat)
+    (r : List Cand) (h : selectNRandom votes n draws = .ok r) : SelShape (keys votes) n (r.map Slot.cand) := by
+  have hs : ((sortDesc votes).map (·.1)).Nodup := ((sortDesc_perm votes).map _).nodup_iff.mpr hwf
+  have hsub : ∀ c ∈ (sortDesc votes).map (·.1), c ∈ keys votes := fun c hc =>
+    ((sortDesc_perm votes).map (·.1)).subset hc
+  unfold selectNRandom at h
+  simp only at h
+  split at h
+  · cases h
+  · unfold selectNRandomInt at h
+    rw [if_neg (by simp only [List.length_map, sortDesc_length]; omega)] at h
+    have hp := selectLoop_popped _ _ _ _ [] r (by simpa using hs) h
+    exact SelShape.of_cands (by simpa using hp.length) hp.nodup (fun c hc => hsub c (by simpa using hp.sub c hc))
+
+theorem selectNRandom_error (votes : Votes) (n : Nat) (hn : n ≤ votes.length) (draws : List Rat) (e : Err)
+    (h : selectNRandom votes n draws = .error e) : e = .valueError ∨ e = noDraw ∨ e = badDraw := by
+  unfold selectNRandom at h
+  simp only at h
+  split at h
+  · injection h with h; exact Or.inl h.symm
+  · unfold selectNRandomInt at h
+    split at h
+    · cases h
+    · exact selectLoop_error _ _ _ _ _ e (by simp [length_accumulate]) (by simp only [List.length_map, sortDesc_length]; exact hn) h
+
+/-- **Sortitor**: for every sequence of draws the answer lists exactly `n` distinct candidates of the votes -/
+theorem sortitor_shape (votes : Votes) (hwf : C09.WF votes) (n : Nat) (hn : n ≤ votes.length) (draws : List Rat)
+    (r : List Cand) (h : sortitor votes n draws = .ok r) : SelShape (keys votes) n (r.map Slot.cand) := by
+  unfold sortitor at h
+  have hk : keys ((sortDesc votes).map (fun p => (p.1, (1 : Rat)))) = (sortDesc votes).map (·.1) := by
+    simp [keys, List.map_map, Function.comp_def]
+  have hs : ((sortDesc votes).map (·.1)).Nodup := ((sortDesc_perm votes).map _).nodup_iff.mpr hwf
+  have := selectNRandom_shape _ (by unfold C09.WF; rw [hk]; exact hs) n (by simpa [sortDesc_length] using hn) draws r h
+  rw [hk] at this
+  exact this.mono (fun c hc => ((sortDesc_perm votes).map (·.1)).subset hc)
+
+/-- **RandomUnrankedBallotSelector** (integer counts): for every sequence of draws the answer lists exactly `n` distinct
+    candidates of the votes -/
+theorem random_ballot_shape (votes : Votes) (hwf : C09.WF votes) (n : Nat) (hn : n ≤ votes.length) (draws : List Rat)
+    (r : List Cand) (h : randomBallot votes n draws = .ok r) : SelShape (keys votes) n (r.map Slot.cand) :=
+  selectNRandom_shape votes hwf n hn draws r h
+
+/-- the error outcomes of the two random selectors: an ill-formed draw sequence (too short, or a value `randrange` cannot
+    return — the real generator delivers neither), or the `ValueError` of `randrange(1, 1)` once the remaining weight is
+    exhausted.  Neither selector declares a refusal; they are outside the families of the property's third sentence. -/
+theorem random_selectors_refusals_partial (votes : Votes) (n : Nat) (hn : n ≤ votes.length) (draws : List Rat) (e : Err) :
+    (sortitor votes n draws = .error e → e = .valueError ∨ e = noDraw ∨ e = badDraw) ∧
+    (randomBallot votes n draws = .error e → e = .valueError ∨ e = noDraw ∨ e = badDraw) :=
+  ⟨fun h => selectNRandom_error _ n (by simpa [sortDesc_length] using hn) draws e h,
+   fun h => selectNRandom_error votes n hn draws e h⟩
+
+/-- **Sortitor never fails on the draws of a generator**: with at least one candidate and `n ≤ #candidates` its only error
+    outcomes are those of an ill-formed draw sequence (too short / a value outside `randrange(1, remaining + 1)`); the
+    `ValueError` of an exhausted weight is unreachable because every candidate weighs 1 (the loop keeps the cumulative
+    weights of the remaining candidates: `accumulate_pop`). -/
+theorem sortitor_refusals (votes : Votes) (hne : votes ≠ []) (n : Nat) (hn : n ≤ votes.length) (draws : List Rat) (e : Err)
+    (h : sortitor votes n draws = .error e) : e = noDraw ∨ e = badDraw := by
+  unfold sortitor selectNRandom at h
+  simp only at h
+  split at h
+  · rename_i hemp
+    exfalso
+    have h0 := List.isEmpty_iff.mp hemp
+    have := congrArg List.length h0
+    simp only [sortDesc_length, List.length_map, List.length_nil] at this
+    exact hne (List.length_eq_zero_iff.mp this)
+  · unfold selectNRandomInt at h
+    split at h
+    · cases h
+    · refine selectLoop_error_ones _ _ _ _ _ e (by simp) ?_ (by simpa [sortDesc_length] using hn) h
+      intro w hw
+      obtain ⟨p, hp, rfl⟩ := List.mem_map.mp hw
+      obtain ⟨q, _, rfl⟩ := List.mem_map.mp (mem_sortDesc.mp hp)
+      rfl
+
+/-- the `ValueError` is reached inside the property's quantifier: one voter, three candidates, two seats -/
+theorem random_ballot_exhausted_witness :
+    randomBallot [(0, 1), (1, 0), (2, 0)] 2 [1] = .error .valueError ∧
+    sortitor [(0, 1), (1, 0), (2, 0)] 2 [3, 1] = .ok [2, 0] := by
+  constructor <;> decide +kernel
+
+/-- **RFC3797Selector**: with one hash value per seat the selector answers, with exactly `n` distinct candidates of the
+    votes, whatever the values are; it has no error outcome for `n ≤ #candidates` -/
+theorem rfc3797_shape (votes : Votes) (hwf : C09.WF votes) (n : Nat) (hn : n ≤ votes.length) (draws : List Nat)
+    (hd : n ≤ draws.length) :
+    ∃ r, rfc3797 votes n draws = .ok r ∧ SelShape (keys votes) n (r.map Slot.cand) := by
+  cases h : rfc3797 votes n draws with
+  | error e =>
+    unfold rfc3797 at h
+    have := (rfcLoop_error n (keys votes) draws [] e (by simpa [keys] using hn) h).2
+    omega
+  | ok r =>
+    unfold rfc3797 at h
+    have hp := rfcLoop_popped n (keys votes) draws [] r (by rw [List.nil_append]; exact hwf) h
+    exact ⟨r, rfl, SelShape.of_cands (by simpa using hp.length) hp.nodup (fun c hc => by simpa using hp.sub c hc)⟩
+
+example : rfc3797 [(0, 5), (1, 0), (2, 7), (3, 1)] 3 [10, 7, 1] = .ok [2, 1, 3] := by decide +kernel
+
+/-- **CandidateNumberRanker** (after fix fb7088f): for `n ≤ #candidates` every answer lists exactly `n` distinct candidates
+    of the votes (by increasing candidacy number, equal numbers in dictionary order); it answers whenever every candidate has
+    a number (or there is a single candidate); its only error outcome is the `TypeError` of comparing a missing number
+    (`None`), which needs at least two candidates one of which has no number. -/
+theorem candidate_number_shape (numbers : Cand → Option Int) (votes : Votes) (hwf : C09.WF votes) (n : Nat)
+    (hn : n ≤ votes.length) :
+    (∀ r, candidateNumberRanker numbers votes n = .ok r → SelShape (keys votes) n (r.map Slot.cand)) ∧
+    ((∀ c ∈ keys votes, numbers c ≠ none) → ∃ r, candidateNumberRanker numbers votes n = .ok r) ∧
+    (∀ e, candidateNumberRanker numbers votes n = .error e →
+      e = typeErr ∧ 2 ≤ (keys votes).length ∧ ∃ c ∈ keys votes, numbers c = none) := by
+  unfold candidateNumberRanker
+  simp only
+  refine ⟨?_, ?_, ?_⟩
+  · intro r h
+    split at h
+    · cases h
+    · injection h with h; subst h
+      refine SelShape.of_cands ?_ ((sortBy_nodup hwf).sublist (List.take_sublist _ _))
+        (fun c hc => mem_sortBy.mp (List.mem_of_mem_take hc))
+      rw [List.length_take, sortBy_length]
+      have : (keys votes).length = votes.length := by simp [keys]
+      omega
+  · intro hall
+    rw [if_neg]
+    · exact ⟨_, rfl⟩
+    · rintro ⟨_, hany⟩
+      obtain ⟨c, hc, hnone⟩ := List.any_eq_true.mp hany
+      exact hall c hc (by simpa [Option.isNone_iff_eq_none] using hnone)
+  · intro e h
+    split at h
+    · rename_i hc
+      injection h with h
+      obtain ⟨c, hcm, hnone⟩ := List.any_eq_true.mp hc.2
+      exact ⟨h.symm, hc.1, c, hcm, by simpa [Option.isNone_iff_eq_none] using hnone⟩
+    · cases h
+
+/-- equal numbers keep the dictionary order; a missing number among several candidates is a TypeError; a lone candidate
+    without number is returned -/
+example : candidateNumberRanker (fun c => [some 3, some 1, some 3].getD c none) [(0, 1), (1, 2), (2, 5)] 3 = .ok [1, 0, 2] ∧
+    candidateNumberRanker (fun c => [some 3, none].getD c none) [(0, 1), (1, 2)] 1 = .error typeErr ∧
+    candidateNumberRanker (fun _ => none) [(0, 2)] 1 = .ok [0] := by
+  refine ⟨by decide +kernel, by decide +kernel, by decide +kernel⟩
+
+end auxiliary
 
 /-! ### distributions -/
 
